@@ -414,6 +414,7 @@ class Flow:
             return env
         if isinstance(st, ast.Return) and st.value is not None:
             self.cur_env = env
+            self.cur_target = seg(st, 60)
             ds = self.degs(st.value, env)
             if isinstance(st.value, ast.Name) and ds <= {None}:
                 # an object built here: the degree of the control points it was given
@@ -514,33 +515,47 @@ def weight_homog(r: R, chk, quals, rule="WEIGHT-HOMOG"):
 
 # ------------------------------------------------------------------------------------------------
 # RESULT-HOMOG: the curve a function returns is invariant under a scaling of the weights of its (rational) argument
-def result_homog(r: R, chk, quals, rule="RESULT-HOMOG", floor: int = 1):
+def result_homog(r: R, chk, quals, rule="RESULT-HOMOG", floor: int = 1, per_operand: bool = False):
     """`curve` is rational: the function u -> C(u) does not change when every weight is multiplied by the same constant, and neither
     does anything derived from it (its derivative).  `curve.fraction()` yields numerator and denominator, both of degree 1 in the
     weights; the derivative helpers of the library are linear (degree of the argument); sums need equal degrees, products add,
     quotients subtract.  Every returned curve has to come out with degree 0."""
     total = 0
-    for q in quals:
+    for q, scaled in [(q, s_) for q in quals for s_ in ((0, 1) if per_operand else (None,))]:
         ctx = r.root(q)
         fi = ctx.fi
         holder = {}
+        params = list(fi.params)
+        if scaled is not None and len(params) < 2:
+            continue
+        # `scaled`: the operand whose weights are multiplied by a constant in this pass (None: the only curve argument)
+        scaled_names = set()
+        if scaled is not None:
+            scaled_names = {params[scaled]}
+            for a in ast.walk(fi.node):
+                if isinstance(a, ast.Assign) and len(a.targets) == 1 and isinstance(a.targets[0], ast.Name) and isinstance(a.value, ast.Call) and isinstance(a.value.func, ast.Name) and a.value.func.id in ("copy", "deepcopy") and len(a.value.args) == 1 and isinstance(a.value.args[0], ast.Name) and a.value.args[0].id in scaled_names:
+                    scaled_names.add(a.targets[0].id)
 
-        def attr(e, h):
-            if isinstance(e.value, ast.Name) and e.attr in ("ctrlpoints", "weights") and e.value.id in h.seeds and not isinstance(h.seeds[e.value.id], tuple):
+        def is_scaled(e, scaled=scaled, scaled_names=scaled_names):
+            return scaled is None or (isinstance(e, ast.Name) and e.id in scaled_names)
+
+        def attr(e, h, is_scaled=is_scaled):
+            if isinstance(e.value, ast.Name) and e.attr in ("ctrlpoints", "weights") and e.value.id in h.seeds and not isinstance(h.seeds[e.value.id], tuple) and h.seeds[e.value.id] != 0:
                 return h.seeds[e.value.id] if e.attr == "ctrlpoints" else "skip"
             if e.attr == "weights":
-                return Fraction(1)
+                return Fraction(1) if is_scaled(e.value) else Fraction(0)
             if e.attr in ("ctrlpoints", "knotvector", "npts", "degree", "knots", "limits"):
                 return Fraction(0)
             return "skip"
 
         attr.wants_h = True
 
-        def call_result(call, n, ctx=ctx):
+        def call_result(call, n, ctx=ctx, is_scaled=is_scaled):
             fl = holder["fl"]
             f = call.func
             if isinstance(f, ast.Attribute) and f.attr == "fraction" and not call.args:
-                return [Fraction(1)] * n if n == 2 else None
+                d = Fraction(1) if is_scaled(f.value) else Fraction(0)
+                return [d] * n if n == 2 else None
             crs = [c for c in ctx.calls if c.node is call and c.callees]
             names = {fn.qual for c in crs for fn in c.callees}
             if names and all(nm.startswith("heavy.Calculus.") for nm in names):
@@ -550,10 +565,25 @@ def result_homog(r: R, chk, quals, rule="RESULT-HOMOG", floor: int = 1):
                 return [next(iter(ds))] if len(ds) == 1 and None not in ds else None
             return None
 
-        fl = Flow(r, ctx, attr, call_result)
+        fl = Flow(r, ctx, attr, call_result, homog_cls=_HomogMix)
         holder["fl"] = fl
         seeds = {p_: Fraction(0) for p_ in fi.params if p_ not in ("self", "cls")}
-        fl.run(seeds)
+        _HomogMix.MISMATCH, _HomogMix.FLOW = [], fl
+        try:
+            fl.run(seeds)
+        finally:
+            mism = list(_HomogMix.MISMATCH)
+            _HomogMix.MISMATCH, _HomogMix.FLOW = [], None
+        who = "the argument" if scaled is None else f"`{params[scaled]}`"
+        seen_m = set()
+        for tgt, a, b in mism:
+            if (tgt, a, b) in seen_m or (tgt, b, a) in seen_m:
+                continue
+            seen_m.add((tgt, a, b))
+            total += 1
+            chk.ob(rule, f"{q}: the terms of a sum have the same degree in the weights of {who}", False, loc=r.loc(ctx, fi.node),
+                   detail=f"{q}: in `{tgt}` a term of degree {a} and a term of degree {b} in the weights of {who} are added: multiplying all those weights by a constant — the same rational curve — changes the two terms differently, so the sum is not the pointwise value (a denominator factor is missing in one of the cross products)",
+                   func=q, construct=f"sum of terms of different degree in the weights of {who}")
         for ds, node in fl.returns:
             decided = [d for d in ds if d is not None]
             if not decided:
@@ -561,9 +591,9 @@ def result_homog(r: R, chk, quals, rule="RESULT-HOMOG", floor: int = 1):
                 continue
             total += 1
             bad = sorted(d for d in decided if d != ANY and d != 0)
-            chk.ob(rule, f"{q}: `{seg(node, 40)}` is of degree 0 in the weights", not bad, loc=r.loc(ctx, node),
-                   detail="" if not bad else f"{q}: the curve returned by `{seg(node, 40)}` is homogeneous of degree {', '.join(str(b) for b in bad)} in the weights of the argument: multiplying all weights by a constant — the same rational curve — changes the returned derivative, so it is not the derivative of the curve (a numerator / denominator part of the quotient rule is returned without the division by W or W^2)",
-                   func=q, construct="returned curve not invariant under a scaling of the weights")
+            chk.ob(rule, f"{q}: `{seg(node, 40)}` is of degree 0 in the weights of {who}", not bad, loc=r.loc(ctx, node),
+                   detail="" if not bad else f"{q}: the curve returned by `{seg(node, 40)}` is homogeneous of degree {', '.join(str(b) for b in bad)} in the weights of {who}: multiplying all those weights by a constant — the same rational curve — changes the result, so it is not the pointwise value (a numerator / denominator factor of the fraction arithmetic is missing or doubled: W, W^2 or the other operand's denominator)",
+                   func=q, construct=f"returned curve not invariant under a scaling of the weights of {who}")
     chk.floor(rule, f"returned curves decided in {', '.join(quals)}", total, floor)
     return total
 
